@@ -99,7 +99,7 @@ def _run(case):
     attrq = case.get('entry') == 'attrq'
     soap = case.get('entry') == 'soap'
     opts = {'accepted_time_diff': s} if s else {}
-    if attrq or soap:
+    if attrq or soap or case.get('entry') == 'authnq':
         opts.update({'want_response_signed': False, 'want_assertions_signed': False, 'want_assertions_or_response_signed': False})
     sp = spside.sp_for(opts)
     clock.set_now(now)
@@ -148,6 +148,14 @@ def _run(case):
         a['authn'] = []
         r['destination'] = None
         v = spside.deliver_attr(sp, build.render(r, [a]))
+    elif case.get('entry') == 'authnq':
+        # a third response entry point: the answer to an AuthnQuery (SOAP, unsigned; AuthnStatements stay)
+        r['destination'] = None
+        try:
+            resp = sp.parse_authn_query_response(build.soap_envelope(build.render(r, [a])), world.SOAP)
+            v = ('accept', resp) if resp is not None else ('reject', 'None', '')
+        except Exception as e:
+            v = ('reject', type(e).__name__, str(e)[:200])
     elif soap:
         # the same authentication response delivered over the synchronous SOAP binding (unsigned: the SOAP decoder re-serialises the body)
         r['destination'] = None
@@ -168,7 +176,7 @@ def _run(case):
         if v[0] != 'accept':
             raise Violation('rejected-inside-window', 'allowance %d: every bound satisfied with more than the allowance to spare, rejected: %s %s (bounds relative to now: %r, IssueInstant %+d, spelling %r)'
                             % (s, v[1], v[2], dict((k, x - now) for k, x in b.items() if x is not None), case['ii'] - now, SPELL[spell % len(SPELL)]))
-    if v[0] == 'accept' and not attrq:
+    if v[0] == 'accept' and not attrq and case.get('entry') != 'authnq':
         got = v[1].session_info()['not_on_or_after']
         if case.get('stmts') or attrq:
             exp = None      # which statement's bound is the session expiry is not stated for several statements
@@ -232,6 +240,12 @@ def grid():
                 places = [now - s + k for k in ks] + [now - s - FAR, now + s + FAR]
             for p in places:
                 out.append({'s': s, 'judged': 'attrq-' + judged, 'subset': 'all', 'bounds': dict(comfy, **{judged: p}), 'ii': now, 'spell': len(out) % len(SPELL), 'entry': 'attrq', 'near': abs(p - now) <= s + 3})
+        # ... and the AuthnQuery answer entry point
+        for judged in ('cnb', 'cnooa', 'snooa', 'sess'):
+            places = [now + s + 2, now + s + FAR] if judged == 'cnb' else [now - s - 2, now - s - FAR]
+            for p in places:
+                out.append({'s': s, 'judged': 'authnq-' + judged, 'subset': 'all', 'bounds': dict(comfy, **{judged: p}), 'ii': now, 'spell': 0, 'entry': 'authnq', 'near': True})
+        out.append({'s': s, 'judged': 'authnq-comfortable', 'subset': 'all', 'bounds': dict(comfy), 'ii': now, 'spell': 0, 'entry': 'authnq', 'near': True})
         for d in (1, s + 5):
             out.append({'s': s, 'judged': 'attrq-order', 'subset': 'all', 'bounds': dict(comfy, cnb=now + FAR + d, cnooa=now + FAR), 'ii': now, 'spell': 0, 'entry': 'attrq', 'near': True})
         # zone-offset spellings of a bound that has really passed / is really not yet reached, by less and by more than the offset
